@@ -161,7 +161,7 @@ def export_set(chk: Check, rng: common.Rng, thorough: bool):
             plan.append((d, progs.random_cfg(rng, d)))
     params = progs.plugin_params()
     if thorough:
-        chosen = params
+        chosen = rng.shuffle(params)        # seeded order: a budget cut drops a different tail per seed
     else:
         light = [p for p in params if not str(p.get("context", "")).startswith("examples.")]
         heavy = [p for p in params if str(p.get("context", "")).startswith("examples.onnx_functions")]
